@@ -21,13 +21,14 @@ RULE = ("random inputs per loader: manual = random dict; empirical = random obse
         "gcmpy's own distributions or positive tables, direct and sampling mode (n_samples 20000); every loader through "
         "the direct constructor and the dispatcher (all seven JointDegreeType values for the path-equality clause); "
         "non-trivial = support >= 4 points and >= 2 distinct probabilities; distinct = SHA-1 of the concrete input")
+RULE += ("; rounds k-l added: " + 'use-then-read histories: a joint degree sequence is sampled from the loader (1, 30, 3000 tuples in 30% of the loads; 10**6 tuples in 3 (quick) / 12 (thorough) dedicated cases) before its distribution is read again')
 ASSUMPTIONS = ["marginal support: S = product of S_i with [kmin_i, kmax_i-1] <= S_i <= [kmin_i, kmax_i] (half-open or closed both accepted)",
                "sampling mode decided by Pearson chi-square, p>=1e-4 held, one escalation with 4x samples, p<1e-6 violated",
                "exact comparisons at 1e-12"]
 HEADLINE = ["loaders", "manual", "empirical", "function", "marginal_direct", "marginal_sampling", "dispatcher_path", "dispatcher_equal_checks", "recreate_checks", "update_history_checks", "in_place_observation_edits",
             "box_points_evaluated", "shared_marginal_callable", "all_numpy_integer_marginals", "chi2_tests", "chi2_escalations"]
 REQUIRED = {t: {"manual": 10, "empirical": 10, "function": 10, "marginal_direct": 10, "marginal_sampling": 5,
-                "dispatcher_equal_checks": 30, "shared_marginal_callable": 8} for t in ("quick", "thorough")}
+                "dispatcher_equal_checks": 30, "shared_marginal_callable": 8, "loaders_sampled_from_before_their_distribution_was_read": 10} for t in ("quick", "thorough")}
 TOL = 1e-12
 
 
